@@ -259,7 +259,26 @@ pub fn run<L: Lab<TR>>(lab: &mut L, p: &Params) {
         let slot = ((p.aux >> 8) & 0xf) as usize;
         let cid: Id = sess.signers[slot];
         let honest = shares[&cid].share().0;
-        let z = lab.adv_scalar("z'");
+        // replay candidates for the adversarial share: the honest value, and the share a plain RFC 9591
+        // signer would send (nonces not negated / negated whatever the parity), computed from the
+        // reference quantities — a counter-model that coincides with one of them is replayed as such
+        let mut cands = vec![honest];
+        if let Some(q_even) = lift_x(&qx) {
+            let list: scen::spec::CommitmentList<TR> = sess.signers.iter().map(|id| (id.to_scalar(), sess.commitments[id].hiding().value(), sess.commitments[id].binding().value())).collect();
+            if let Some(bfs) = scen::spec::compute_binding_factors::<TR>(q_even, &list, &msg) {
+                let bf_vals: Vec<Scalar> = bfs.iter().map(|x| x.1).collect();
+                let r_spec = scen::spec::compute_group_commitment::<TR>(&list, &bf_vals);
+                let c = int_mod_n(&tagged_hash("BIP0340/challenge", &[&x_of(&r_spec), &qx, &msg]));
+                let k = sess.nonces[&cid].hiding().clone().to_scalar() + sess.nonces[&cid].binding().clone().to_scalar() * bf_vals[slot];
+                // honest = (+-k) + lambda*s_eff*c, so lambda*s_eff*c is one of honest -+ k
+                cands.push(honest - k - k);
+                cands.push(honest + k + k);
+                cands.push(honest - k);
+                cands.push(honest + k);
+                let _ = c;
+            }
+        }
+        let z = lab.adv_scalar_among("z'", &cands);
         shares.insert(cid, sig_share_from_scalar::<TR>(z));
         lab.set_policy(Pol::ForkAdv);
         let cd = match mode {
